@@ -519,6 +519,9 @@ impl<'t> World<'t> {
                 if let Ok(fgot) = guarded(|| fm.str_in_re(&s2, fe)) {
                     self.eval(Prop::C07, "c07.same-answer-on-fresh-manager", fp(&info.dfa), w.len() as u64, nontrivial(&info.dfa));
                     let wt = self.show_str(w);
+                    if ti == 1 {
+                        self.sample(format!("str_in_re({}, {}) = {} on the shared manager and {} on a copy of the term in a fresh manager", wt, show(e), got, fgot));
+                    }
                     self.judge(Prop::C07, "c07.same-answer-on-fresh-manager", fgot == got, || {
                         format!(
                             "str_in_re({}, {}) = {} on the manager with history, but {} when the same term is rebuilt on a fresh manager",
